@@ -176,7 +176,8 @@ G_BASE = ["self.searchData is not None and %s is not None and self.parameters is
           "%s.bestTrials is not self.Z and %s.bestTrials is not %s._allTrials" % (SOL, SOL, SOL, SOL, SOL, SD),
           "self.evolvent.yValues is not None and self.evolvent.yValues is not self.M and self.evolvent.yValues is not self.Z",
           "self.dimension >= 1 and self.dimension == %s.numberOfFloatVariables" % PB,
-          "self.task.perm is not None and vlen(self.task.perm) == 1 and self.task.perm[0] == 0",
+          "self.task.perm is not None and vlen(self.task.perm) == 1 and self.task.perm[0] == 0 and "
+          "self.task.perm is not %s._allTrials and self.task.perm is not %s.bestTrials" % (SD, SOL),
           "%s.numberOfObjectives == 1 and %s.numberOfConstraints == 0" % (PB, PB),
           "self.parameters.r > 1 and finite(self.parameters.r) and finite(self.parameters.eps)"]
 G_WF = [_sd(c) for c in csd.WF] + ["depq_ok(%s)" % Q, "%s.maxlen == 0" % Q]
@@ -187,6 +188,7 @@ G_ORD = ["%s.gn >= 3 and %s.GetX() == 0 and %s.GetX() == 1" % (SD, item(0), item
          "forall(1, %s.gn - 1, lambda k: %s.GetIndex() == 0)" % (SD, item("k"))]
 G_DELTA = ["forall(1, %s.gn, lambda k: %s.delta == hroot(%s.GetX() - %s.GetX(), self.dimension))"
            % (SD, item("k"), item("k"), item("k - 1"))]
+DELTA_K = "%s.delta == hroot(%s.GetX() - %s.GetX(), self.dimension)" % (item("k"), item("k"), item("k - 1"))
 G_COUNT = ["self.iterationsCount == %s.gn - 2" % SD, "%s.numberOfGlobalTrials == %s.gn - 2" % (SOL, SD)]
 
 # region: every item of the search information was allocated before the current allocation mark (so that objects
@@ -221,6 +223,22 @@ def spec_rs(engine, state, zr, zl, d, m, z, r, il, ir):
 
 
 SPEC_FUNCS["rs"] = spec_rs
+SLOPE = z3.Function("slope", RealS, RealS, RealS, RealS)
+
+
+def spec_slope(engine, state, zl, zr, d):
+    """slope(zl, zr, d) = |zr - zl| / d (d > 0): uninterpreted inside quantified invariants, defined by an axiom instance
+    for the concrete arguments it is applied to outside quantifiers"""
+    a = [to_z3(v, RealS) for v in (zl, zr, d)]
+    t = SLOPE(*a)
+    if engine.quant_depth == 0:
+        zl_, zr_, d_ = a
+        _ax(engine, z3.Implies(d_ > 0, z3.And(t * d_ == z3.If(zr_ - zl_ >= 0, zr_ - zl_, zl_ - zr_), t >= 0,
+                                              t == z3.If(zr_ - zl_ >= 0, zr_ - zl_, zl_ - zr_) / d_)))
+    return t
+
+
+SPEC_FUNCS["slope"] = spec_slope
 
 
 def rspec(cur, left):
@@ -251,11 +269,11 @@ G_RQ = ["self.recalc or forall(0, %s.glen, lambda qi: %s and %s.gkeys[qi] == %s.
         % (item(0), SD, item("k"), rspec(item("k"), item("k - 1")))]
 # evaluated trials carry finite values, the optimum estimate is their minimum, M bounds every current slope
 G_VAL = ["forall(1, %s.gn - 1, lambda k: finite(%s.GetZ()))" % (SD, item("k")),
-         "finite(self.Z[0]) and self.M[0] >= 1 and finite(self.M[0])",
+         "finite(self.Z[0]) and self.M[0] >= 1",
          "forall(1, %s.gn - 1, lambda k: self.Z[0] <= %s.GetZ())" % (SD, item("k")),
-         "forall(2, %s.gn - 1, lambda k: abs(%s.GetZ() - %s.GetZ()) <= self.M[0] * %s.delta)"
-         % (SD, item("k"), item("k - 1"), item("k"))]
-G_BEST = ["%s and %s.gpos[self.best] >= 1 and %s.gpos[self.best] <= %s.gn - 2" % (member("self.best"), SD, SD, SD),
+         "forall(2, %s.gn - 1, lambda k: slope(%s.GetZ(), %s.GetZ(), %s.delta) <= self.M[0])"
+         % (SD, item("k - 1"), item("k"), item("k"))]
+G_BEST = ["%s and self.best.GetIndex() == 0" % member("self.best"),
           "self.Z[0] == self.best.GetZ()", "%s.bestTrials[0] is self.best" % SOL]
 GROUPS.update({"rq": G_RQ, "val": G_VAL, "best": G_BEST})
 ALL = ("base", "wf", "own", "ord", "delta", "val", "best", "rq")
@@ -333,6 +351,8 @@ def calculate_m():
                              "implies(%s, self.M[0] == max(old(self.M[0]), abs(left_point.GetZ() - curr_point.GetZ()) / "
                              "curr_point.delta))" % same,
                              "implies(%s, self.recalc == (old(self.recalc) or self.M[0] != old(self.M[0])))" % same,
+                             "implies(%s, self.M[0] == max(old(self.M[0]), slope(left_point.GetZ(), curr_point.GetZ(), "
+                             "curr_point.delta)))" % same,
                              "self.M[0] >= old(self.M[0])"],
                     doc="C02: M = largest slope |dz|/D seen (never decreases); a change of M requests a recalculation")
 
@@ -366,9 +386,10 @@ def next_point():
                               "self.M is not None and vlen(self.M) == 1 and self.M[0] >= 1 and self.parameters is not None and "
                               "self.parameters.r > 1 and self.task is not None and %s is not None" % PB,
                               "%s.numberOfFloatVariables >= 1" % PB,
-                              "implies(%s, point.GetIndex() == 0 and abs(%s) <= self.M[0] * point.delta and "
+                              "implies(%s, point.GetIndex() == 0 and point.delta > 0 and "
+                              "slope(point.GetLeft().GetZ(), point.GetZ(), point.delta) <= self.M[0] and "
                               "point.delta == hroot(point.GetX() - point.GetLeft().GetX(), %s.numberOfFloatVariables))"
-                              % (same, dz, PB)],
+                              % (same, PB)],
                     ensures=["implies(not %s, result == %s)" % (same, mid),
                              "implies(%s, result == %s - (1 if %s > 0 else -1) * rpow(abs(%s) / self.M[0], "
                              "%s.numberOfFloatVariables) / (2 * self.parameters.r))" % (same, mid, dz, dz, PB),
@@ -451,10 +472,11 @@ def update_optimum():
 
 
 # ----------------------------------------------------------------------------- the iteration (C02 C06 C04)
-RQ_CUR = "forall(0, %s.glen, lambda qi: %s and %s.gkeys[qi] == %s.gitems[qi].globalR)" % (Q, member("%s.gitems[qi]" % Q), Q, Q)
+RQ_CUR = "forall(0, %s.glen, lambda qi: %s.gkeys[qi] == %s.gitems[qi].globalR)" % (Q, Q, Q)
+RQ_MEM = "forall_ref('SearchDataItem', lambda qo: implies(%s.gcnt[qo] >= 1, %s))" % (Q, member("qo"))
 RQ_SPEC = "%s.globalR == NINF() and forall(1, %s.gn, lambda k: %s.globalR == %s)" % (item(0), SD, item("k"), rspec(item("k"), item("k - 1")))
 RQ_FIN = "forall(1, %s.gn, lambda k: %s.globalR > NINF())" % (SD, item("k"))
-GROUPS["rq"] = ["self.recalc or (%s)" % RQ_CUR,
+GROUPS["rq"] = ["self.recalc or (%s)" % RQ_CUR, "self.recalc or (%s)" % RQ_MEM,
                 "self.recalc or forall(0, %s.gn, lambda k: %s.gcnt[%s] == 1)" % (SD, Q, item("k")),
                 "self.recalc or (%s)" % RQ_SPEC,
                 "self.recalc or (%s)" % RQ_FIN]
@@ -466,7 +488,7 @@ def recalc_all():
     return Contract(F_METHOD, "Method.RecalcAllCharacteristics", params={}, result="none",
                     modifies=["self.recalc", "allof(globalR)", "allof(curIter)"] + QMODS, allocates=False,
                     requires=keep + inv("rq"),
-                    ensures=["depq_ok(%s)" % Q, RQ_CUR, "forall(0, %s.gn, lambda k: %s.gcnt[%s] == 1)" % (SD, Q, item("k")), RQ_SPEC,
+                    ensures=["depq_ok(%s)" % Q, RQ_CUR, RQ_MEM, "forall(0, %s.gn, lambda k: %s.gcnt[%s] == 1)" % (SD, Q, item("k")), RQ_SPEC,
                              RQ_FIN, "self.recalc == False",
                              "implies(old(self.recalc) == False, %s.glen == old(%s.glen) and %s.gitems == old(%s.gitems) and "
                              "%s.gkeys == old(%s.gkeys) and %s.gcnt == old(%s.gcnt))" % ((Q,) * 8)],
@@ -501,7 +523,7 @@ def iteration_point():
                     modifies=["self.recalc", "allof(globalR)", "allof(curIter)", "%s.solutionAccuracy" % SOL,
                               "self.evolvent.yValues", "elems(self.evolvent.yValues)"] + QMODS,
                     requires=inv(*ALL),
-                    ensures=["depq_ok(%s)" % Q, "self.recalc == False", RQ_CUR, RQ_SPEC, RQ_FIN,
+                    ensures=["depq_ok(%s)" % Q, "self.recalc == False", RQ_CUR, RQ_MEM, RQ_SPEC, RQ_FIN,
                              # C02: the chosen interval has the maximal characteristic over ALL intervals of the partition
                              "%s and %s.gpos[%s] >= 1" % (member(o), SD, o),
                              "forall(0, %s.gn, lambda k: %s.globalR <= %s.globalR)" % (SD, item("k"), o),
@@ -518,8 +540,9 @@ def iteration_point():
                     ghost_after={"GetDataItemWithMaxGlobalR": [
                         # lemma hints: the popped entry is a member with the maximal characteristic over the whole partition
                         "assert %s" % member("old"),
-                        "assert forall(0, {q}.glen, lambda qi: {m} and {q}.gkeys[qi] == {q}.gitems[qi].globalR and "
-                        "{q}.gkeys[qi] <= old.globalR)".format(q=Q, m=member("%s.gitems[qi]" % Q)),
+                        "assert forall(0, {q}.glen, lambda qi: {q}.gkeys[qi] == {q}.gitems[qi].globalR and "
+                        "{q}.gkeys[qi] <= old.globalR)".format(q=Q),
+                        "assert %s" % RQ_MEM,
                         "assert forall(0, %s.gn, lambda k: %s.gcnt[%s] == (0 if %s is old else 1))" % (SD, Q, item("k"), item("k")),
                         "assert forall(0, %s.gn, lambda k: %s.globalR <= old.globalR)" % (SD, item("k")),
                         "assert %s.gpos[old] >= 1" % SD,
@@ -533,7 +556,7 @@ def renew_search_data():
     n, o = "newpoint", "oldpoint"
     l = "old(oldpoint.GetLeft())"
     keep = inv("base", "wf", "own", "ord", "delta", "val")
-    pending = ["self.recalc or (%s)" % RQ_CUR,
+    pending = ["self.recalc or (%s)" % RQ_CUR, "self.recalc or (%s)" % RQ_MEM,
                "self.recalc or forall(0, %s.gn, lambda k: %s.gcnt[%s] == (0 if %s is oldpoint else 1))" % (SD, Q, item("k"), item("k")),
                "self.recalc or (%s)" % RQ_SPEC, "self.recalc or (%s)" % RQ_FIN]
     return Contract(F_METHOD, "Method.RenewSearchData", params={"newpoint": "ref:SearchDataItem", "oldpoint": "ref:SearchDataItem"},
@@ -541,7 +564,7 @@ def renew_search_data():
                     modifies=["oldpoint.delta", "newpoint.delta", "elems(self.M)", "self.recalc", "newpoint.globalR",
                               "oldpoint.globalR", "newpoint._SearchDataItem__leftPoint", "newpoint._SearchDataItem__rightPoint",
                               "oldpoint._SearchDataItem__leftPoint", "oldpoint.GetLeft()._SearchDataItem__rightPoint",
-                              "elems(%s._allTrials)" % SD, "%s.curIter" % SD, "%s.gseq" % SD, "%s.gn" % SD, "%s.gpos" % SD] + QMODS,
+                              "elems(%s._allTrials)" % SD, "len_(%s._allTrials)" % SD, "%s.curIter" % SD, "%s.gseq" % SD, "%s.gn" % SD, "%s.gpos" % SD] + QMODS,
                     allocates=False,
                     requires=keep + pending + [
                         "%s and %s.gpos[oldpoint] >= 1" % (member(o), SD),
@@ -560,6 +583,17 @@ def renew_search_data():
                         "{l}.GetIndex() == 0 else old(self.M[0])), (abs(newpoint.GetZ() - oldpoint.GetZ()) / oldpoint.delta) if "
                         "oldpoint.GetIndex() == 0 else old(self.M[0]))".format(l=l),
                         "implies(self.M[0] != old(self.M[0]), self.recalc)"],
+                    ghost_after={"self.CalculateGlobalR(oldpoint, newpoint)": [
+                        # lemma hints: no queue entry belongs to the two items whose characteristic was just rewritten
+                        "assert self.recalc or forall(0, %s.glen, lambda qi: %s.gitems[qi] is not oldpoint and "
+                        "%s.gitems[qi] is not newpoint)" % (Q, Q, Q),
+                        "assert self.recalc or (%s)" % RQ_CUR,
+                        "assert self.recalc or (%s.gcnt[newpoint] == 0 and %s.gcnt[oldpoint] == 0)" % (Q, Q)]},
+                    ghost_exit=["gk0 = old(%s.gpos[oldpoint])" % SD,
+                                "assert %s is newpoint and %s is oldpoint and %s is old(oldpoint.GetLeft())"
+                                % (item("gk0"), item("gk0 + 1"), item("gk0 - 1")),
+                                "assert forall(1, gk0, lambda k: %s)" % DELTA_K,
+                                "assert forall(gk0 + 2, %s.gn, lambda k: %s)" % (SD, DELTA_K)],
                     doc="C06/C02: both new interval lengths, the slope estimate, both characteristics are recomputed and the "
                         "item is spliced into the ordered list; the invariant of the search information is re-established")
 
@@ -572,7 +606,7 @@ def first_iteration():
     return Contract(F_METHOD, "Method.FirstIteration", params={}, result="none",
                     modifies=["self.iterationsCount", "self.best", "self.recalc", "elems(self.Z)", "elems(%s.bestTrials)" % SOL,
                               "%s.numberOfGlobalTrials" % SOL, "%s.gcalls" % PB, "%s.gevals" % PB,
-                              "self.evolvent.yValues", "elems(self.evolvent.yValues)", "elems(%s._allTrials)" % SD,
+                              "self.evolvent.yValues", "elems(self.evolvent.yValues)", "elems(%s._allTrials)" % SD, "len_(%s._allTrials)" % SD,
                               "%s._SearchData__firstDataItem" % SD, "%s.curIter" % SD, "%s.gseq" % SD, "%s.gn" % SD,
                               "%s.gpos" % SD] + QMODS,
                     requires=inv("base") + init,
